@@ -26,39 +26,30 @@ Proof.
 Qed.
 
 Lemma dse_go_spec f s :
-  dse_go f s = true <-> exists a b, s = a ++ b /\ nonl a /\ f b = true.
+  dse_go f s = true <-> exists a b, s = a ++ b /\ f b = true.
 Proof.
-  induction s as [|x r IH]; cbn; rewrite ?orl_spec, ?andl_spec.
+  induction s as [|x r IH]; cbn; rewrite ?orl_spec.
   - rewrite orb_false_r. split.
-    + intros H. exists [], []. repeat split; auto. intros [].
-    + intros (a & b & E & _ & H). symmetry in E. apply app_eq_nil in E as [-> ->]. exact H.
-  - rewrite orb_true_iff, andb_true_iff, negb_true_iff, IH. split.
-    + intros [H|[Hx (a & b & -> & Ha & Hb)]].
-      * exists [], (x :: r). repeat split; auto. intros [].
-      * exists (x :: a), b. repeat split; auto. intros [E|Hin]; [|now apply Ha].
-        subst x. now rewrite Ascii.eqb_refl in Hx.
-    + intros (a & b & E & Ha & Hb). destruct a as [|y a]; cbn in E.
-      * left. now subst b.
-      * injection E as -> ->. right. split.
-        -- apply Ascii.eqb_neq. intros ->. apply Ha. now left.
-        -- exists a, b. repeat split; auto. intros Hin. apply Ha. now right.
+    + intros H. exists [], []. auto.
+    + intros (a & b & E & H). symmetry in E. apply app_eq_nil in E as [-> ->]. exact H.
+  - rewrite orb_true_iff, IH. split.
+    + intros [H|(a & b & -> & Hb)]; [exists [], (x :: r); auto|exists (x :: a), b; auto].
+    + intros (a & b & E & Hb). destruct a as [|y a]; cbn in E; [left; now subst b|].
+      injection E as -> ->. right. eauto.
 Qed.
 
 Lemma dss_go_spec f s :
-  dss_go f s = true <-> exists a b, s = a ++ slash :: b /\ nonl a /\ f b = true.
+  dss_go f s = true <-> exists a b, s = a ++ slash :: b /\ f b = true.
 Proof.
   induction s as [|x r IH]; cbn; rewrite ?orl_spec, ?andl_spec.
   - split; [discriminate|]. intros (a & b & E & _). destruct a; discriminate.
-  - rewrite orb_true_iff, !andb_true_iff, negb_true_iff, IH. split.
-    + intros [[Hx Hf]|[Hx (a & b & -> & Ha & Hb)]].
-      * apply Ascii.eqb_eq in Hx. subst x. exists [], r. repeat split; auto. intros [].
-      * exists (x :: a), b. repeat split; auto. intros [E|Hin]; [|now apply Ha].
-        subst x. now rewrite Ascii.eqb_refl in Hx.
-    + intros (a & b & E & Ha & Hb). destruct a as [|y a]; cbn in E.
+  - rewrite orb_true_iff, andb_true_iff, IH. split.
+    + intros [[Hx Hf]|(a & b & -> & Hb)].
+      * apply Ascii.eqb_eq in Hx. subst x. exists [], r. auto.
+      * exists (x :: a), b. auto.
+    + intros (a & b & E & Hb). destruct a as [|y a]; cbn in E.
       * injection E as -> ->. left. split; [apply Ascii.eqb_refl|exact Hb].
-      * injection E as -> ->. right. split.
-        -- apply Ascii.eqb_neq. intros ->. apply Ha. now left.
-        -- exists a, b. repeat split; auto. intros Hin. apply Ha. now right.
+      * injection E as -> ->. right. eauto.
 Qed.
 
 Lemma many_go_spec f s : many_go f s = true <-> exists a b, s = a ++ b /\ f b = true.
@@ -293,10 +284,10 @@ Definition pat_lits_ok (pat : list gseg) : Prop :=
   forall atoms, In (GSeg atoms) pat -> lits_ok atoms.
 
 Theorem flatten_correct pat : pat <> [] -> pat_lits_ok pat ->
-  forall segs, segs <> [] -> segs_noslash segs -> segs_nonl segs ->
+  forall segs, segs <> [] -> segs_noslash segs ->
   tmatch (flatten pat) (join_with slash segs) = gmatch pat segs.
 Proof.
-  induction pat as [|g pat IH]; intros Hne Hl segs Hs Hns Hnl; [congruence|].
+  induction pat as [|g pat IH]; intros Hne Hl segs Hs Hns; [congruence|].
   assert (Hl' : pat_lits_ok pat) by (intros a Ha; apply Hl; now right).
   destruct g as [atoms|].
   - assert (Ha : lits_ok atoms) by (apply Hl; now left).
@@ -313,33 +304,29 @@ Proof.
         rewrite gmatch_nil by discriminate. now rewrite andb_false_r.
       * rewrite join_cons2, seg_mid by assumption. f_equal.
         apply IH; auto; try discriminate.
-        -- intros x Hx. apply Hns. now right.
-        -- intros x Hx. apply Hnl. now right.
+        intros x Hx. apply Hns. now right.
   - destruct pat as [|g2 pat].
     + (* final "**" *)
       cbn [flatten gmatch tmatch]. destruct segs as [|s segs]; [congruence|]. cbn [is_nil negb].
       apply dse_go_spec. exists (join_with slash (s :: segs)), []. rewrite app_nil_r.
-      repeat split; auto. now apply join_nonl.
+      auto.
     + change (flatten (GDouble :: g2 :: pat)) with (TDSS :: flatten (g2 :: pat)).
       change (gmatch (GDouble :: g2 :: pat)) with (skip_go (gmatch (g2 :: pat))).
       cbn [tmatch]. apply bool_iff.
       rewrite orl_spec, orb_true_iff, dss_go_spec, skip_go_spec. split.
-      * intros [H|(a & b & E & Ha & Hb)].
+      * intros [H|(a & b & E & Hb)].
         -- exists [], segs. split; [reflexivity|]. rewrite <- IH; auto. discriminate.
         -- apply join_split_at in E as (s1 & s2 & -> & H1 & H2 & -> & ->); auto.
            exists s1, s2. split; [reflexivity|]. rewrite <- IH; auto; try discriminate.
-           ++ intros x Hx. apply Hns. apply in_or_app. now right.
-           ++ intros x Hx. apply Hnl. apply in_or_app. now right.
+           intros x Hx. apply Hns. apply in_or_app. now right.
       * intros (s1 & s2 & E & Hm).
         destruct s2 as [|y s2]; [rewrite gmatch_nil in Hm by discriminate; discriminate|].
         destruct s1 as [|x s1].
         -- left. cbn in E. subst segs. rewrite IH; auto; discriminate.
         -- right. exists (join_with slash (x :: s1)), (join_with slash (y :: s2)).
            assert (Hns2 : segs_noslash (y :: s2)) by (intros z Hz; apply Hns; subst segs; apply in_or_app; now right).
-           assert (Hnl2 : segs_nonl (y :: s2)) by (intros z Hz; apply Hnl; subst segs; apply in_or_app; now right).
-           repeat split.
+           split.
            ++ subst segs. apply join_app; discriminate.
-           ++ apply join_nonl. intros z Hz. apply Hnl. subst segs. apply in_or_app. now left.
            ++ rewrite IH; auto; discriminate.
 Qed.
 
@@ -447,11 +434,11 @@ Qed.
 
 (* compile_correct: a rule whose value is a written well-formed pattern matches
    a path exactly when the segment-wise specification says so *)
-Theorem compile_correct pat path :
-  pat_ok pat = true -> nonl path ->
+Theorem compile_correct_all pat path :
+  pat_ok pat = true ->
   tmatch (tokenize (pat_text pat)) path = gmatch pat (split_on slash path).
 Proof.
-  intros Hok Hnl. rewrite tokenize_pat_text by exact Hok.
+  intros Hok. rewrite tokenize_pat_text by exact Hok.
   rewrite <- (join_split slash path) at 1.
   unfold pat_ok in Hok. apply andb_true_iff in Hok as [Hne Hall].
   apply flatten_correct.
@@ -460,9 +447,10 @@ Proof.
     apply andb_true_iff in Hall as [_ Hall]. now apply atoms_ok_lits.
   - apply split_on_nonempty.
   - intros g Hg. eapply split_on_segs_no_sep; eauto.
-  - intros g Hg Hin. apply Hnl. rewrite <- (join_split slash path).
-    clear - Hg Hin. induction (split_on slash path) as [|x l IH]; [contradiction|].
-    destruct l as [|y l]; [destruct Hg as [<-|[]]; exact Hin|].
-    rewrite join_cons2. apply in_or_app. destruct Hg as [<-|Hg]; [now left|].
-    right. right. now apply IH.
 Qed.
+
+(* the statement as it was when "." did not match a newline (kept for its users) *)
+Theorem compile_correct pat path :
+  pat_ok pat = true -> nonl path ->
+  tmatch (tokenize (pat_text pat)) path = gmatch pat (split_on slash path).
+Proof. intros Hok _. now apply compile_correct_all. Qed.
